@@ -30,7 +30,7 @@ def main(tier, replay=None):
                 for fn in sorted(os.listdir(cdir)):
                     for l in open(os.path.join(cdir, fn)):
                         l = l.strip()
-                        if l[:2] in ("S ", "W "):
+                        if l[:2] in ("S ", "W ") and len(l.split(" ")) >= 3:
                             n += 1
                             p = l.split(" ")
                             p[1] = "c%d" % n
@@ -46,8 +46,8 @@ def main(tier, replay=None):
     case_by_key = {}
     for line in open(cases):
         line = line.rstrip("\n")
-        if line:
-            f = line.split(" ")
+        f = line.split(" ")
+        if len(f) >= 2:
             case_by_key[f[0] + " " + f[1]] = line
 
     # --- correspondence: answer class of every operation and the full snapshot after it
@@ -73,7 +73,8 @@ def main(tier, replay=None):
         v = spec.get(key, key + " missing").split(" ")
         verdict = v[2] if len(v) > 2 else "missing"
         names = []
-        if "hang" in il or "transport-exit" in il or "err:" in il or il.endswith(" panic") or not il:
+        if ("hang" in il or "transport-exit" in il or "err:" in il or il.endswith(" panic") or not il
+                or "driver-error" in model.get(key, "")):
             names.append("harness-run-incomplete")
         if verdict != "ok":
             names += sorted(set(verdict.split(",")))
@@ -113,7 +114,7 @@ def main(tier, replay=None):
         if i < 0:
             return set()
         j = snap.find("]", i)
-        return set(x.split(":")[1] for x in snap[i + 3:j].split(" ") if x)
+        return set(x.split(":")[1] for x in snap[i + 3:j].split(" ") if x.count(":") >= 1)
 
     for key, cl in case_by_key.items():
         f = cl.split(" ")
@@ -136,7 +137,7 @@ def main(tier, replay=None):
             if prev is not None and (prev - cur):
                 gone_fabric = True       # an incarnation left the fabric table in this step
             prev = cur
-        if gone_fabric and probe:
+        if gone_fabric and probe and len(f) > 3:
             nt.add(f[2] + " " + f[3])
     samples = []
     for key, cl in list(case_by_key.items())[1:5]:
